@@ -203,7 +203,6 @@ static void upipe_audio_split_sub_process(struct upipe *upipe,
                  !ubase_check(uref_sound_read_uint8_t(uref, 0, -1,
                                                       &in_buf, 1)))) {
         upipe_warn(upipe, "invalid sound uref");
-        uref_free(uref);
         return;
     }
 
